@@ -71,7 +71,7 @@ def famFaultOp (se : Sess) (fam : String) (kv : KV) (f : Fault) : Sess × String
     | none =>
       let rm := se.m.putOneF se.o c d (some f)
       let fired := match rm.2.1 with | .err .other => true | _ => false
-      if fired then ({ se with m := rm.1 }, "r=other", "r=!ok")   -- spec: a failed Put stores nothing
+      if fired then ({ se with m := rm.1 }, "r=other", "r=other")   -- spec: a failed Put stores nothing
       else
         let rs := Spec.step se.o se.s (.put c d)
         ({ se with m := rm.1, s := rs.1 }, "r=" ++ outStr false rm.2.1, "r=" ++ outStr false rs.2)
@@ -80,7 +80,7 @@ def famFaultOp (se : Sess) (fam : String) (kv : KV) (f : Fault) : Sess × String
     let fired := match rm.2.1 with | .err .other => true | _ => false
     if fired then
       -- spec: Finalize failed; the store is unusable from now on (closed), nothing is acknowledged
-      ({ se with m := rm.1, s := { se.s with closed := true, finalized := true } }, "r=other", "r=!ok")
+      ({ se with m := rm.1, s := { se.s with closed := true, finalized := true } }, "r=other", "r=other")
     else
       let rs := Spec.step se.o se.s .finalize
       ({ se with m := rm.1, s := rs.1 }, "r=" ++ outStr false rm.2.1, "r=" ++ outStr false rs.2)
